@@ -355,6 +355,100 @@ func genChecksum(c *ctx) *leanFile {
 	}
 	_ = bc
 	_ = filepath.Join
+
+	// Which backend a URL belongs to (the backend header of a room API request, the target of an outgoing
+	// request): BackendConfiguration.GetBackend -> storage.GetBackend -> backendStorageCommon.getBackendLocked.
+	// The top-level statements of the three functions are written out verbatim (white space normalised, no
+	// comments); Model/Checksum.lean interprets the two statements of getBackendLocked that decide the match
+	// (the '/'-termination of the looked-up URL and the prefix comparison with the entry's URL), the rest is
+	// pinned by C02_source_facts.  getConfiguredHosts: a configured URL is stored '/'-terminated.
+	cfgFile := c.file("backend_configuration.go")
+	stat := c.file("backend_storage_static.go")
+	program := func(f *ast.File, recv, name string) ([]string, bool) {
+		fd := findFunc(f, recv, name)
+		if fd == nil || fd.Body == nil {
+			return nil, false
+		}
+		var out []string
+		for _, st := range fd.Body.List {
+			out = append(out, strings.Join(strings.Fields(srcText(c.fset, st)), " "))
+		}
+		return out, len(out) > 0
+	}
+	prog, okProg := program(cfgFile, "backendStorageCommon", "getBackendLocked")
+	l.strList("lookupProgram", prog, okProg, "backendStorageCommon.getBackendLocked not found in backend_configuration.go")
+	prog, okProg = program(cfgFile, "BackendConfiguration", "GetBackend")
+	l.strList("lookupEntryProgram", prog, okProg, "BackendConfiguration.GetBackend not found in backend_configuration.go")
+	prog, okProg = program(stat, "backendStorageStatic", "GetBackend")
+	l.strList("lookupStaticProgram", prog, okProg, "backendStorageStatic.GetBackend not found in backend_storage_static.go")
+	// every other implementation of the storage lookup goes through getBackendLocked
+	nStorages, nThrough := 0, 0
+	for _, e := range ents {
+		n := e.Name()
+		if e.IsDir() || !strings.HasSuffix(n, ".go") || strings.HasSuffix(n, "_test.go") {
+			continue
+		}
+		f := c.file(n)
+		if f == nil {
+			continue
+		}
+		for _, d := range f.Decls {
+			fd, ok := d.(*ast.FuncDecl)
+			if !ok || fd.Body == nil || fd.Recv == nil || fd.Name.Name != "GetBackend" || !strings.HasPrefix(n, "backend_storage_") {
+				continue
+			}
+			nStorages++
+			if len(fd.Body.List) > 0 {
+				if rs, ok := fd.Body.List[len(fd.Body.List)-1].(*ast.ReturnStmt); ok && len(rs.Results) == 1 &&
+					strings.Join(strings.Fields(srcText(c.fset, rs.Results[0])), " ") == "s.getBackendLocked(u)" {
+					nThrough++
+				}
+			}
+		}
+	}
+	l.nat("lookupStorages", int64(nStorages), nStorages > 0, "no backend_storage_*.go GetBackend method found")
+	l.nat("lookupStoragesThroughCommon", int64(nThrough), nStorages > 0, "no backend_storage_*.go GetBackend method found")
+
+	// getConfiguredHosts: the statements that shape the stored url, and `url: u` in the Backend literal
+	var cfgProg []string
+	okCfg := false
+	if fd := findFunc(stat, "", "getConfiguredHosts"); fd != nil && fd.Body != nil {
+		ast.Inspect(fd.Body, func(x ast.Node) bool {
+			rs, ok := x.(*ast.RangeStmt)
+			if !ok || okCfg || !strings.Contains(srcText(c.fset, rs.X), "getConfiguredBackendIDs") {
+				return true
+			}
+			storesU := false
+			for _, st := range rs.Body.List {
+				t := strings.Join(strings.Fields(srcText(c.fset, st)), " ")
+				mentionsU := false
+				ast.Inspect(st, func(y ast.Node) bool {
+					switch n := y.(type) {
+					case *ast.AssignStmt: // the statements that give u a value
+						for _, lhs := range n.Lhs {
+							if isIdent(lhs, "u") {
+								mentionsU = true
+							}
+						}
+					case *ast.KeyValueExpr:
+						if isIdent(n.Key, "url") && isIdent(n.Value, "u") {
+							storesU = true
+						}
+					}
+					return true
+				})
+				if storesU {
+					break // the statement that stores the entry: everything that shaped u came before
+				}
+				if mentionsU {
+					cfgProg = append(cfgProg, t)
+				}
+			}
+			okCfg = storesU
+			return false
+		})
+	}
+	l.strList("configUrlProgram", cfgProg, okCfg, "getConfiguredHosts: loop over getConfiguredBackendIDs(…) storing &Backend{url: u, …} not found")
 	l.nat("outgoingPostSites", int64(postSites), postSites > 0, "no outgoing POST request site found in the package")
 	l.nat("outgoingPostSitesSigned", int64(signedSites), postSites > 0, "no outgoing POST request site found in the package")
 	return l
